@@ -71,6 +71,7 @@ func runC01(p *Prog, r *Report) {
 	c01Walker(p, r, e)
 	setOnlyAtConstruction(p, r, "D7-walk", "extractor/filesystem/internal", "dirIterator", "files", "the preloaded list of a directory iterator is replaced after construction: `files != nil` is the iterator's mode (everything was read up front, the list's end is the directory's end), so an iterator that reads in batches reports end-of-directory after its first batch and the remaining entries — files and whole sub-trees — are never visited")
 	c01Same(p, r, e)
+	loopLeftOnlyWithError(p, r, "D8-same", e.walkIndividual, "walkContext", "pathsToExtract", "walkIndividualPaths can return from inside its loop over the requested paths with a value that may be nil (the callback's verdict on a failed stat, say): when it is nil, every requested path after this one is silently never walked and the scan still reports success")
 	c01ParentPatternsReset(p, r, e, "D8-same")
 	r.Rule("D5-balanced", "gitignore push/pop balanced: patterns of skipped directories never unbalance the stack")
 	c08Balanced(p, r, e, "D5-balanced")
@@ -637,6 +638,11 @@ func c01Walker(p *Prog, r *Report, e *engine) {
 	nextErr, _ := guardEdges(fn, condNonNil(errOfNext))
 	recErr, _ := guardEdges(fn, condNonNil(func(v ssa.Value) bool { return v == ssa.Value(rec) }))
 	cut := edgesOf(append(append([]Edge{}, nextErr...), recErr...))
+	// a failed next() ends the listing of this directory: next() is not called again on the handle
+	// that just failed (it would fail the same way for ever — the walk would not terminate)
+	for _, ed := range nextErr {
+		w.noPath("D7-walk", "failed-read-ends-listing", edgeStart(ed), instrIs(next), nil, nil, "after a failed directory read the directory is not read again", "after next() reported an error the loop can go round and call next() on the same directory handle again: a read error that persists (as they do) is reported to the callback for ever and the scan never terminates")
+	}
 	w.noPath("D7-walk", "loop-exits", Point{hdr, -1}, isReturn, nil, cut, "the entry loop is left only after a failed next() (EOF/error) or a failing/SkipDir recursion", "the entry loop can be left although next() succeeded and the recursion returned nil: remaining entries are never visited")
 	// returns: never originates SkipDir/SkipAll: every returned value is nil or the result of a callback / recursive call
 	for i, ret := range returnsOf(fn) {
